@@ -3,6 +3,7 @@ package main
 // Engine-side implementation of the harness API (package zz_verif/sym).
 
 import (
+	"strings"
 	"fmt"
 	"go/types"
 
@@ -181,6 +182,23 @@ func init() {
 			return ex.intConst(0)
 		}
 		return ex.intConst(ex.sched.vnow)
+	}
+	symFuncs["RestartProcess"] = func(ex *Exec, fr *frame, fn *ssa.Function, args []Value) Value {
+		// the agent process ends and a new one starts: package-level state of the code under test is gone and
+		// its package initialisers run again (lazily, at the next use); the clock keeps running
+		for pkg := range ex.initDone {
+			path := pkg.Pkg.Path()
+			if !strings.HasPrefix(path, "github.com/relex/slog-agent") || strings.Contains(path, "/zz_verif") {
+				continue
+			}
+			delete(ex.initDone, pkg)
+			for _, m := range pkg.Members {
+				if g, ok := m.(*ssa.Global); ok && !strings.HasPrefix(g.Name(), "verif") {
+					delete(ex.globals, g)
+				}
+			}
+		}
+		return nil
 	}
 	symFuncs["Tier"] = func(ex *Exec, fr *frame, fn *ssa.Function, args []Value) Value {
 		return ex.intConst(int64(ex.w.opts.tier))
